@@ -330,6 +330,20 @@ def r06_2(ck):
                'overwrite each other' % (A.call_name(other[0]) if other
                                          else 'nothing'),
                other[0] if other else None)
+    arith = [n2 for n2 in A.walk_no_nested(dm.node)
+             if isinstance(n2, ast.AugAssign) or (
+                 isinstance(n2, ast.Assign) and isinstance(
+                     n2.targets[0], ast.Subscript) and isinstance(
+                     n2.value, ast.BinOp))]
+    ck.require(not arith, 'R06.2', dm, arith[0] if arith else dm.node.name,
+               'colliding values are kept side by side, never combined '
+               'arithmetically before the updater sees them',
+               'deep_merge_multi_update combines colliding values itself '
+               '(%s): the variable\'s updater then runs once on the '
+               'combination instead of once per update, which is wrong for '
+               'every non-additive updater (set, nonnegative_accumulate)'
+               % (A.short(arith[0], 40) if arith else ''),
+               arith[0] if arith else None)
     apps = [c for c in A.calls_in(dm.node, 'append')]
     ck.require(bool(apps), 'R06.2', dm, dm.node.name,
                'a third colliding value is appended to the list',
